@@ -151,6 +151,8 @@ def d2(cx: Cx, ob: Ob) -> None:
         kw = dict(elt[3]) if op(elt) == "call" else {}
         idx, val = (tgt[1] + (None, None))[:2] if op(tgt) == "tuple" else (None, None)
         parts = concat_parts(kw.get("prefix")) if kw.get("prefix") is not None else None
+        if parts is not None and len(parts) == 2 and op(parts[1]) == "call" and parts[1][1] == ("builtin", "str") and parts[1][2] == (idx,):
+            parts = [parts[0], idx]
         if parts != [("param", "metaprefix"), idx]:
             ob.violate(fn.qualname, where(fn, line), f"record prefix is `{show(kw.get('prefix'))[:40] if kw.get('prefix') else None}`, not metaprefix + index", detail="naming")
         if kw.get("uri_prefix") != val and not (op(val) == "tuple" and kw.get("uri_prefix") == val[1][0]):
